@@ -605,7 +605,10 @@ fn gen_nkind(g: &mut Sm, prop: &str) -> NKind {
     match which {
         0 | 1 | 2 => NKind::Filter(gen_kind(g, which, realistic)),
         3 => {
-            let (w, d) = if g.chance(1, 8) {
+            let (w, d) = if g.chance(1, 60) {
+                // more columns than a 16-bit index can address
+                (*g.pick(&[65_535usize, 65_536, 65_537, 70_001]), g.range(1, 3) as usize)
+            } else if g.chance(1, 8) {
                 (g.range(16, 300) as usize, g.range(1, 8) as usize)
             } else {
                 let w = g.range(1, 6) as usize;
